@@ -1,5 +1,6 @@
 import IstioModel.Common.Wire
 import IstioModel.C19.Model
+import IstioModel.C19.Monitor
 
 /-! Line-protocol driver for C19 (streams `decide`, `inject`). See harness/c19. -/
 namespace IstioModel.C19
@@ -8,6 +9,9 @@ open IstioModel.Wire
 structure DState where
   pod : Pod := {}
   cfg : Cfg := {}
+  -- inject stream: the observation being read and the pod under construction
+  obs : Obs := {}
+  cur : Option (String × RPod) := none
 
 def DState.init : DState := {}
 
@@ -40,6 +44,40 @@ def step (s : DState) (toks : List String) : DState × String :=
     | none => (s, "bad-op")
     | some sel => ({ s with cfg := { s.cfg with always := s.cfg.always ++ [sel] } }, (selStatus sel s.pod.labels).tok)
   | ["eval"] => (s, boolTok (injectRequiredC ignoredNamespaces s.cfg s.pod))
+  -- inject stream (trace written by `harness/c19 exec inject`)
+  | "src" :: _ => (s, "ok")
+  | ["begin", which] => ({ s with cur := some (which, {}) }, "ok")
+  | [tag, name, image, cmd, args, ports, digest] =>
+    match s.cur with
+    | none => (s, "bad-op")
+    | some (w, p) =>
+      let c : CtrObs := { core := { name := dec name, image := dec image, command := decList cmd, args := decList args,
+                                    ports := decList ports }, digest := digest }
+      if tag == "c" then ({ s with cur := some (w, { p with containers := p.containers ++ [c] }) }, "ok")
+      else if tag == "i" then ({ s with cur := some (w, { p with inits := p.inits ++ [c] }) }, "ok")
+      else (s, "bad-op")
+  | ["v", name, digest] =>
+    match s.cur with
+    | none => (s, "bad-op")
+    | some (w, p) => ({ s with cur := some (w, { p with volumes := p.volumes ++ [{ name := dec name, digest := digest }] }) }, "ok")
+  | ["m", metaD, specD] =>
+    match s.cur with
+    | none => (s, "bad-op")
+    | some (w, p) => ({ s with cur := some (w, { p with metaD := metaD, specD := specD }) }, "ok")
+  | ["inj", cs, is, vs] =>
+    match s.cur with
+    | none => (s, "bad-op")
+    | some (w, p) => ({ s with cur := some (w, { p with injC := decList cs, injI := decList is, injV := decList vs }) }, "ok")
+  | ["end"] =>
+    match s.cur with
+    | none => (s, "bad-op")
+    | some (w, p) =>
+      let o := s.obs
+      let o' := if w == "orig" then { o with orig := some p } else if w == "once" then { o with once := some p }
+                else if w == "twice" then { o with twice := some p } else o
+      ({ s with obs := o', cur := none }, "ok")
+  | "status" :: st :: _ => ({ s with obs := { s.obs with status := st } }, "ok")
+  | ["check"] => (s, (judge s.obs).render)
   | _ => (s, "bad-op")
 
 end IstioModel.C19
